@@ -32,7 +32,9 @@ def _add_own_extension(obj, kwargs, version):
     ext = getattr(obj, 'with_extension', None)
     if ext and version != '2.0':
         extensions = kwargs.get('extensions')
-        if extensions is None or isinstance(extensions, Mapping):
+        if extensions is None or extensions == [] \
+                or isinstance(extensions, Mapping):
+            # (None and [] mean the property is absent)
             extensions = dict(extensions or {})
             if ext not in extensions:
                 extensions[ext] = class_for_type(ext, version, "extensions")()
